@@ -97,7 +97,8 @@ def handle (op : String) (req : Json) : Except String Json := do
     pure (okJson (listJson (fun k => iterate P C k) ks))
   | "site" =>
     pure (okJson (Json.mkObj [("py", Json.bool Ens.Generated.MleSite.warnSwappedPy),
-                              ("pyx", Json.bool Ens.Generated.MleSite.warnSwappedPyx)]))
+                              ("pyx", Json.bool Ens.Generated.MleSite.warnSwappedPyx),
+                              ("guard", Json.bool Ens.Generated.MleSite.cRoundingGuard)]))
   | _ => throw s!"bad-op C12.{op}"
 
 end Drv.C12
